@@ -31,7 +31,10 @@ def run(P, rep, tier):
                        '(has_space) of every token that replacement produces, copies, splices or passes on, as a later # spells it - the has_space obligations of '
                        'R19.2 (C19) re-issued, plus: non-first tokens of copied lists keep their flag (subst, the list copier, read_macro_arg_one, paste_objlike, '
                        'append, preprocess2 pass-through, expand_macro), the first token of a __VA_OPT__ group, the source of the flag of the token handed back '
-                       '(the macro NAME), and the separator after an invocation that expands to nothing.')
+                       '(the macro NAME), and the separator after an invocation that expands to nothing. Round 7 adds: R09.21 (a __VA_OPT__ group is one operand of ##; '
+                       'has_varargs goes by is_va_args, run on concrete argument lists; an empty group left of ## is a placemarker), R09.22 (an argument is macro-replaced once '
+                       'per invocation: two occurrences of one parameter sharing one MacroArg), and in R09.9 stringize as a whole is run on concrete operands with string '
+                       'literals, character constants and a backslash outside of them (C11 6.10.3.2p2).')
     rep.assumptions += ['calloc succeeds', 'loops over token lists are analysed for 0..2 generic iterations',
                         'tokenize() returns a NUL/EOF-terminated token list', 'clang 14 typed AST']
     shared = {}
@@ -49,6 +52,8 @@ def run(P, rep, tier):
     rs = part('R09.3', lambda: r_subst(P, u, rep))
     if rs is not None:
         part('R09.12', lambda: r_arg_sharing(P, u, rep, rs[0], rs[1]))
+    part('R09.21', lambda: r_va_opt(P, u, rep))
+    part('R09.22', lambda: r_expanded_once(P, u, rep))
     part('R09.5', lambda: r_arg_one(P, u, rep))
     part('R09.5', lambda: r_args(P, u, rep))
     part('R09.6', lambda: r_definition(P, u, rep))
@@ -1213,12 +1218,13 @@ def r_subst(P, u, rep):
     it, paths, classes = explore_subst(P, u)
     line = u.fn(fn).line
     rep.rule('R09.13', 'placemarkers (C11 6.10.3.3p2-3): an operand of ## that is an empty argument behaves as a placemarker - subst diagnoses a replacement list only for what the list itself shows (# not followed by a parameter, ## first, ## last), never because an operand happened to be empty in this invocation; paste() is called with the token that stands for the operand left of the operator (looking through empty operands: `x ## y ## z` with y empty pastes x and z), and not at all when everything left of the operator back to the previous non-operand is empty', floor=4)
+    rep.rule('R09.21', R0921, floor=8)
     rep.rule('R09.3', 'in subst the operands of # and ## are taken unexpanded (stringize/paste/copy of arg->tok), and exactly the parameters that are not operands of # or ## are replaced by preprocess2(arg->tok)', floor=10)
     for need in ('#', '##'):
         if need not in classes:
             raise AnalysisBroken('subst no longer compares tokens against %r' % need)
     A = Agg(rep)
-    seen = {'stringize': 0, 'paste-arg': 0, 'paste-body': 0, 'lhs-copy': 0, 'expand': 0, 'gnu-comma': 0, 'va-opt': 0, 'va-opt-content': 0}
+    seen = {'stringize': 0, 'paste-arg': 0, 'paste-body': 0, 'lhs-copy': 0, 'expand': 0, 'gnu-comma': 0, 'va-opt': 0, 'va-opt-content': 0, 'body-copy': 0}
     for ctx, out in paths:
         sp = SubstPath(it, ctx)
         facts = {'path': ctx.trail}
@@ -1262,6 +1268,8 @@ def r_subst(P, u, rep):
                     pr = sp.pred_of(xo)
                     A.ob('R09.3', '%s:%s:paste-rhs-body-token' % (U, fn), pr is not None and sp.cls(pr) == {'##'} and PARAM not in (sp.cls(xo) or {PARAM}),
                          'paste() takes a replacement-list token that does not follow "##" or that may be a parameter', where, facts)
+                    A.ob('R09.21', '%s:%s:paste-rhs-may-be-va-opt-group' % (U, fn), not _may_open_va_opt(sp, xo),
+                         'paste() takes as its right operand a single replacement-list token of which the code has not excluded that it is the `__VA_OPT__` of a `__VA_OPT__( )` group: the operand of ## is the whole group (its substituted content, or a placemarker when there are no variable arguments) - `#define F(x, ...) x ## __VA_OPT__(a)` / F(p,1) yields `p__VA_OPT__(a)` instead of `pa`', where, facts)
                 else:
                     rep.undecided('R09.3', '%s:%s:paste-rhs-unknown' % (U, fn), 'the right operand of paste() (%r) is neither an argument nor a replacement-list token' % (x,), where)
             elif e[1] == 'preprocess2':
@@ -1290,6 +1298,10 @@ def r_subst(P, u, rep):
                 o = e[2][0]
                 if id(o) in sp.raw and id(e[4]) in handed:
                     continue        # a private copy of the argument made for a callee (preprocess2 relinks what it is given): not part of the result
+                if isinstance(o, Obj) and id(o) in sp.body_ids and id(o) not in sp.raw:
+                    seen['body-copy'] += 1
+                    A.ob('R09.21', '%s:%s:va-opt-group-copied-as-plain-token' % (U, fn), not _may_open_va_opt(sp, o),
+                         'a replacement-list token is copied into the result as an ordinary token although the code has not excluded that it is the `__VA_OPT__` of a `__VA_OPT__( )` group (the token right of a ## whose left operand is empty): the name __VA_OPT__ and its parentheses appear in the expansion - `#define F(x, ...) x ## __VA_OPT__(a)` / F(,1) yields `__VA_OPT__(a)` instead of `a`', where, facts)
                 if id(o) in sp.raw:
                     t, k = sp.raw[id(o)]
                     nx = sp.next_of(t)
@@ -1361,6 +1373,16 @@ def r_subst(P, u, rep):
             rep.undecided('R09.3', '%s:%s:no-%s-path' % (U, fn, k), 'no explored path of subst performs the "%s" action (shape not recognised)' % k, where='%s:%d' % (U, line))
     r_paste_operands(P, u, rep)
     return it, paths
+
+
+def _may_open_va_opt(sp, t):
+    """the decisions of the path leave it possible that body token t is `__VA_OPT__` and the token after it `(`"""
+    c = sp.cls(t)
+    if c is not None and '__VA_OPT__' not in c:
+        return False
+    nx = sp.next_of(t)
+    cn = sp.cls(nx) if nx is not None else None
+    return cn is None or '(' in cn
 
 
 def _diagnosis(it, u, ctx, out, sp, A, facts):
@@ -1613,6 +1635,139 @@ def r_arg_sharing(P, u, rep, it, paths):
     for k, v in n_seen.items():
         if v == 0:
             rep.undecided('R09.12', '%s:%s:no-%s-case' % (U, fn, k), 'no explored path of subst shows an argument list being %s' % k, where=w0)
+
+
+R0921 = ('__VA_OPT__ (C23 6.10.4.1; GNU named variadic parameters included): a `__VA_OPT__( )` group is ONE unit of the replacement list wherever it stands, '
+         'also as an operand of ## - no path of subst pastes or copies a replacement-list token of which it has not excluded that it opens such a group; '
+         'whether the group vanishes is decided by the variadic argument of the invocation, found by its role (is_va_args), whatever the parameter is called; '
+         'a group that vanishes left of a ## is a placemarker: paste() is not called with the token that happens to precede the group')
+
+
+def r_va_opt(P, u, rep):
+    """R09.21: has_varargs on concrete argument lists; `[token] __VA_OPT__( ) ## token` with and without variable arguments"""
+    rep.rule('R09.21', R0921, floor=8)
+    A = Agg(rep)
+    ln = lambda f: '%s:%d' % (U, u.fn(f).line)
+    eof, ident = u.enums.get('TK_EOF'), u.enums.get('TK_IDENT')
+    if 'has_varargs' not in u.functions:
+        raise AnalysisBroken('anchor has_varargs vanished')
+    if len(u.params('has_varargs')) != 1:
+        rep.undecided('R09.21', '%s:has_varargs:signature' % U, 'has_varargs no longer takes exactly the argument list', where=ln('has_varargs'))
+    else:
+        it = _conc(P, u)
+        cases = [('variadic-present', [('x', 0, 1), ('__VA_ARGS__', 1, 1)]), ('variadic-empty', [('x', 0, 1), ('__VA_ARGS__', 1, 0)]),
+                 ('named-variadic-present', [('x', 0, 1), ('rest', 1, 1)]), ('named-variadic-empty', [('x', 0, 1), ('rest', 1, 0)]),
+                 ('named-variadic-present', [('x', 0, 0), ('rest', 1, 1)]), ('only-variadic-present', [('__VA_ARGS__', 1, 1)]),
+                 ('named-variadic-present', [('r', 1, 1)]), ('no-variadic-parameter', [('x', 0, 1), ('y', 0, 1)]), ('no-argument', [])]
+        for name, spec in cases:
+            head = 0
+            for nm, va, full in reversed(spec):
+                tk = mk_tokens([{'loc': 'v'}] if full else [], eof, ident)[0]
+                head = Obj('MacroArg', lazy=False, label='arg_' + nm, fields={'next': head, 'name': nm, 'is_va_args': va, 'tok': tk})
+            want = 1 if any(va and full for nm, va, full in spec) else 0
+            try:
+                r = it.settle(_run1(it, 'has_varargs', [head]))
+            except (NotConcrete, AnalysisBroken) as e:
+                rep.undecided('R09.21', '%s:has_varargs:%s' % (U, name), 'the interpreter cannot follow has_varargs on a concrete argument list (%s)' % e, where=ln('has_varargs'))
+                continue
+            if not isinstance(r, int):
+                rep.undecided('R09.21', '%s:has_varargs:%s' % (U, name), 'has_varargs does not evaluate to a number (%r)' % (r,), where=ln('has_varargs'))
+                continue
+            A.ob('R09.21', '%s:has_varargs:%s' % (U, name), (1 if r else 0) == want,
+                 'has_varargs answers %s for the arguments %s (name, variadic, non-empty): __VA_OPT__ must look at the argument that holds the variable arguments (is_va_args), whatever the parameter is called - '
+                 '`#define F(x, r...) x __VA_OPT__(a) r` / F(1,2) yields `1 2` instead of `1 a 2`' % (r, spec), ln('has_varargs'), {'arguments': spec})
+    # -- a group left of ## on the sub-language {token, __VA_OPT__, (, ##}, three rounds of the main loop
+    it, paths, classes = explore_subst(P, u, loop_limit=3, only=[OTHER, '__VA_OPT__', '(', '##'], max_paths=20000)
+    n = {'present': 0, 'empty': 0}
+    for ctx, out in paths:
+        sp = SubstPath(it, ctx)
+        skips = [e for e in sp.calls if e[1] == 'skip']
+        hvs = [e for e in sp.calls if e[1] == 'has_varargs']
+        if len(skips) != len(hvs):
+            continue
+        facts = {'path': ctx.trail}
+        for e in sp.calls:
+            if e[1] != 'paste':
+                continue
+            xo = it.settle(e[2][1])
+            if not (isinstance(xo, Obj) and id(xo) in sp.body_ids):
+                continue
+            pr = sp.pred_of(xo)
+            if pr is None or sp.cls(pr) != {'##'}:
+                continue
+            for s_, hv in zip(skips, hvs):
+                if it.settle(s_[4]) is not pr:
+                    continue
+                r = it.settle(hv[4])
+                if not isinstance(r, int):
+                    continue
+                where = '%s:%d' % (U, e[3])
+                if r:
+                    n['present'] += 1
+                    A.ob('R09.21', '%s:subst:paste-right-after-va-opt-group-with-variable-arguments' % U, True, '', where, facts)
+                else:
+                    n['empty'] += 1
+                    A.ob('R09.21', '%s:subst:paste-with-token-left-of-empty-va-opt' % U, False,
+                         'paste() is called for a ## that directly follows a `__VA_OPT__( )` group although there are no variable arguments on this path: the group is a placemarker, '
+                         'but the token that happens to be last in the result - the unrelated token BEFORE the group - is pasted with the right operand '
+                         '(`#define G(x, ...) x __VA_OPT__(q) ## a` / G(1) yields `1a` instead of `1 a`)', where, facts)
+    A.flush()
+    if n['present'] == 0:
+        rep.undecided('R09.21', '%s:subst:no-paste-after-va-opt-group' % U, 'no explored path of subst over {token, __VA_OPT__, (, ##} replacement lists calls paste() for a ## that follows a group', where=ln('subst'))
+
+
+def r_expanded_once(P, u, rep):
+    """R09.22: two plain occurrences of ONE parameter (one MacroArg object): how often is its token list handed to preprocess2"""
+    from ..lib_c09x import explore_subst_shared
+    rep.rule('R09.22', 'an argument is completely macro-replaced ONCE per invocation (C11 6.10.3.1: "each argument\'s preprocessing tokens are completely macro replaced" before being '
+             'substituted - a step on the argument, not on the occurrence of the parameter): on no path of subst is the token list of one MacroArg handed to preprocess2 more than once; '
+             'further occurrences of the parameter reuse the result (visible through __COUNTER__: `#define D(x) x x` / D(__COUNTER__) is `0 0`, and an identifier made unique '
+             'with __COUNTER__ and passed as an argument names ONE object however often the parameter occurs)', floor=2)
+    A = Agg(rep)
+    w0 = '%s:%d' % (U, u.fn('subst').line)
+    it, paths = explore_subst_shared(P, u, [PARAM, OTHER])
+    two = 0
+    for ctx, out in paths:
+        if out[0] != 'ret':
+            continue
+        ma = getattr(ctx, 'shared_marg', None)
+        if ma is None:
+            continue
+        body, _ = chain(it, ctx.body, limit=8)
+        nparam = sum(1 for b in body if cls_of(b) == {PARAM})
+        raw = set()
+        v = it.settle(ma.fields.get('tok', 0)) if 'tok' in ma.fields else 0
+        for t_ in chain(it, v, limit=8)[0]:
+            raw.add(id(t_))
+        npp = 0
+        foreign = False
+        for e in ctx.events:
+            if e[0] != 'call' or e[1] != 'preprocess2':
+                continue
+            x = it.settle(e[2][0]) if e[2] else None
+            k = 0
+            while isinstance(x, Obj) and id(x) not in raw and x.meta.get('copy_of') is not None and k < 8:
+                x = x.meta['copy_of']
+                k += 1
+            if isinstance(x, Obj) and id(x) in raw:
+                npp += 1
+            else:
+                foreign = True
+        facts = {'path': ctx.trail, 'occurrences of the parameter': nparam, 'calls of preprocess2 on its argument': npp}
+        if foreign:
+            rep.undecided('R09.22', '%s:subst:preprocess2-operand-unknown' % U, 'preprocess2() is applied to something that is not (a copy of) the token list of the argument', where=w0)
+            continue
+        if nparam >= 2:
+            two += 1
+            A.ob('R09.22', '%s:subst:argument-expanded-once-per-invocation' % U, npp <= 1,
+                 'the parameter occurs %d times in the replacement list and the token list of its ONE argument is macro-replaced %d times, once per occurrence: a dynamic macro in the argument '
+                 'is evaluated again for each occurrence (`#define D(x) x x` / D(__COUNTER__) yields `0 1`, gcc and clang `0 0`; `int u = (x); u + u` with u an identifier made from __COUNTER__ '
+                 'by the caller declares one name and uses two others)' % (nparam, npp), w0, facts)
+        elif nparam == 1:
+            A.ob('R09.22', '%s:subst:single-occurrence-expanded' % U, npp == 1, 'a parameter that occurs once is macro-replaced %d times' % npp, w0, facts)
+    A.flush()
+    if two == 0:
+        rep.undecided('R09.22', '%s:subst:no-path-with-two-occurrences' % U, 'no explored path of subst has two plain occurrences of one parameter', where=w0)
 
 
 EOFC = '<eof>'
@@ -2035,7 +2190,7 @@ def r_arg_lookup(P, u, rep):
         objs = []
         for nm, empty in reversed(specs):
             t = Obj('Token', lazy=False, fields={'kind': eof if empty else ident, 'loc': 'v', 'len': 1, 'next': 0})
-            head = Obj('MacroArg', lazy=False, label=nm, fields={'name': nm, 'next': head, 'tok': t, 'is_va_args': 0})
+            head = Obj('MacroArg', lazy=False, label=nm, fields={'name': nm, 'next': head, 'tok': t, 'is_va_args': 1 if nm == '__VA_ARGS__' else 0})
             objs.insert(0, head)
         return head, objs
     names = ['a', 'ab', '__VA_ARGS__']
@@ -2232,7 +2387,7 @@ def r_white_space(P, rep):
         it = _conc(P, u, models={'calloc': _m_calloc_buf, 'strncpy': _m_strncpy})
         for ab, hs in states:
             toks = mk_tokens([{'loc': 'a'}, {'loc': '+', 'at_bol': ab, 'has_space': hs}, {'loc': 'b'}], eof, ident)
-            ctx, r = _run1ctx(it, 'join_tokens', [toks[0], 0])
+            ctx, r = _run1ctx(it, 'join_tokens', [toks[0], 0] + [0] * (len(u.params('join_tokens')) - 2))
             try:
                 got = _cstr(r)
             except _Opaque as e:
@@ -2452,11 +2607,133 @@ def _run1ctx(it, fname, args):
     return paths[0][0], paths[0][1][1]
 
 
+def _m_format_concrete(it, ctx, n, args):
+    """format() with a literal template over %s, %.*s, %c, %d and concrete operands"""
+    f = args[0]
+    if not isinstance(f, str):
+        raise AnalysisBroken('format() with a template that is not a literal at line %d' % n.line)
+    out, i, k = [], 0, 1
+
+    def nxt():
+        nonlocal k
+        if k >= len(args):
+            raise AnalysisBroken('format() has too few operands at line %d' % n.line)
+        v = args[k]
+        k += 1
+        return v
+    while i < len(f):
+        if f[i] != '%':
+            out.append(f[i]); i += 1
+            continue
+        if f.startswith('%%', i):
+            out.append('%'); i += 2
+        elif f.startswith('%.*s', i):
+            w, v = it.settle(nxt()), nxt()
+            v = _cstr(v) if not isinstance(v, str) else v
+            if not isinstance(w, int) or v is None:
+                raise AnalysisBroken('format() operand not concrete at line %d' % n.line)
+            out.append(v[:w]); i += 4
+        elif f.startswith('%s', i):
+            v = nxt()
+            try:
+                v = _cstr(v)
+            except _Opaque as e:
+                raise AnalysisBroken('format() operand not concrete at line %d (%s)' % (n.line, e))
+            if v is None:
+                raise AnalysisBroken('format() operand unterminated at line %d' % n.line)
+            out.append(v); i += 2
+        elif f.startswith('%c', i) or f.startswith('%d', i):
+            v = it.settle(nxt())
+            if not isinstance(v, int):
+                raise AnalysisBroken('format() operand not concrete at line %d' % n.line)
+            out.append(chr(v & 0xff) if f[i + 1] == 'c' else str(v)); i += 2
+        else:
+            raise AnalysisBroken('format() conversion not modelled at line %d: %r' % (n.line, f[i:i + 4]))
+    return ''.join(out)
+
+
+def _stringize_oracle(spec, literal_kinds):
+    """C11 6.10.3.2p2"""
+    out = []
+    for i, (sp_, kind, hs) in enumerate(spec):
+        if i and hs:
+            out.append(' ')
+        out.append(sp_.replace('\\', '\\\\').replace('"', '\\"') if kind in literal_kinds else sp_)
+    return '"' + ''.join(out) + '"'
+
+
+def _stringize_text(P, u, rep, A, ln):
+    """R09.9: run stringize(hash, operand) by the interpreter on concrete operand token lists; tokenize/new_file are
+    replaced by models that keep the text. The helper structure below stringize is free."""
+    eof, ident = u.enums.get('TK_EOF'), u.enums.get('TK_IDENT')
+    K = {k: u.enums.get(k) for k in ('TK_STR', 'TK_NUM', 'TK_PUNCT', 'TK_IDENT', 'TK_PP_NUM')}
+    if any(v is None for v in K.values()):
+        raise AnalysisBroken('token kinds vanished: %s' % sorted(k for k, v in K.items() if v is None))
+    if len(u.params('stringize')) != 2:
+        rep.undecided('R09.9', '%s:stringize:signature' % U, 'stringize no longer takes (the # token, the operand list)', where=ln('stringize'))
+        return
+
+    def m_new_file(it, ctx, n, args):
+        o = Obj('File', lazy=True, label=ctx.fresh('file'))
+        o.meta['text'] = args[-1] if args else None
+        return o
+
+    def m_tokenize(it, ctx, n, args):
+        f = as_obj(it, args[0], n) if args else None
+        t = Obj('Token', lazy=True, label=ctx.fresh('tokenized'))
+        t.meta['text'] = f.meta.get('text') if isinstance(f, Obj) else None
+        ctx.tokenized = getattr(ctx, 'tokenized', []) + [t]
+        return t
+    it = _conc(P, u, models={'calloc': _m_calloc_buf, 'strncpy': _m_strncpy, 'new_file': m_new_file, 'tokenize': m_tokenize, 'format': _m_format_concrete})
+    S, N, Pn, I, PPN = 'TK_STR', 'TK_NUM', 'TK_PUNCT', 'TK_IDENT', 'TK_PP_NUM'
+    cases = [
+        ('joins-argument-then-quotes', [('a', I, 0), ('+', Pn, 1), ('b', I, 0)]),
+        ('backslash-outside-literal', [('\\', Pn, 0), ('n', I, 0)]),
+        ('backslash-outside-literal', [('a', I, 1), ('\\', Pn, 0), ('b', I, 0), ('1', PPN, 1)]),
+        ('string-literal', [('"a\\n"', S, 0)]),
+        ('string-literal', [('u8"q\\""', S, 1), ('x', I, 1)]),
+        ('character-constant', [("'\\\\'", N, 0)]),
+        ('character-constant', [("L'\\0'", N, 0), ("'\"'", N, 1)]),
+        ('literal-and-other-tokens', [('\\', Pn, 0), ('x41', I, 0), ('"\\\\"', S, 1)]),
+    ]
+    for name, spec in cases:
+        toks = mk_tokens([{'loc': sp_, 'has_space': hs, 'at_bol': 0} for sp_, kind, hs in spec], eof, ident)
+        for t_, (sp_, kind, hs) in zip(toks, spec):
+            t_.fields['kind'] = K[kind]
+        want = _stringize_oracle(spec, (S, N))
+        hash_ = Obj('Token', lazy=True, label='hash')
+        try:
+            ctx, r = _run1ctx(it, 'stringize', [hash_, toks[0]])
+            ro = as_obj(it, r)
+            got = ro.meta.get('text') if isinstance(ro, Obj) else None
+            got = got if isinstance(got, str) else _cstr(got)
+        except (AnalysisBroken, _Opaque, NotConcrete) as e:
+            rep.undecided('R09.9', '%s:stringize:%s' % (U, name), 'the interpreter cannot follow stringize on the operand %s to the text it tokenizes (%s)' % ([x[0] for x in spec], e), where=ln('stringize'))
+            continue
+        if got is None:
+            rep.undecided('R09.9', '%s:stringize:%s' % (U, name), 'stringize does not return a token of a tokenize()d buffer', where=ln('stringize'))
+            continue
+        if got == want:
+            key = name if name == 'joins-argument-then-quotes' else name + '-spelled'
+        elif got.count('\\') > want.count('\\') and any(kind not in (S, N) and '\\' in sp_ for sp_, kind, hs in spec):
+            key = 'backslash-outside-literal-doubled'
+        elif got.count('\\') < want.count('\\'):
+            key = 'literal-not-escaped'
+        else:
+            key = name + '-wrong'
+        A.ob('R09.9', '%s:stringize:%s' % (U, key), got == want,
+             '# applied to the operand %s spells the string literal %s; C11 6.10.3.2p2 requires %s: a \\ is inserted before each " and \\ of a string literal or character constant of the operand '
+             'and NOWHERE else (`#define S(x) #x` / S(\\n) is "\\n", a string of one new-line character, not "\\\\n")' % ([x[0] for x in spec], got, want),
+             ln('stringize'), {'operand': spec, 'got': got, 'want': want})
+        over = [(len(arr.elems), size) for arr, size in getattr(ctx, 'bufs', []) if len(arr.elems) > size]
+        A.ob('R09.9', '%s:stringize:buffer-size' % U, not over, 'stringizing %s writes past a buffer (%s)' % ([x[0] for x in spec], over), ln('stringize'))
+
+
 def r_stringize(P, u, rep):
     for f in ('quote_string', 'join_tokens', 'stringize', 'new_str_token', 'paste'):
         if f not in u.functions:
             raise AnalysisBroken('anchor %s vanished' % f)
-    rep.rule('R09.9', 'stringizing: join_tokens puts one space before a token iff it has has_space and is not the first; quote_string wraps in quotes and escapes exactly \" and \\ within the allocated size; stringize/new_str_token feed the joined spelling through quote_string; paste concatenates lhs then rhs and rejects a result that is more than one token', floor=8)
+    rep.rule('R09.9', 'stringizing: join_tokens puts one space before a token iff it has has_space and is not the first; quote_string (the string of __FILE__ and the like) wraps in quotes and escapes exactly \" and \\ within the allocated size; stringize spells its operand between quotes with a \\ before each \" and \\ of the string literals and character constants in it and nowhere else (run on concrete operands); new_str_token feeds its string through quote_string; paste concatenates lhs then rhs and rejects a result that is more than one token', floor=8)
     A = Agg(rep)
     ln = lambda f: '%s:%d' % (U, u.fn(f).line)
     it = _conc(P, u, models={'calloc': _m_calloc_buf, 'strncpy': _m_strncpy})
@@ -2479,7 +2756,7 @@ def r_stringize(P, u, rep):
     cases = [([('a', 0), ('+', 1), ('b', 0), ('c', 1)], 'a +b c'), ([('a', 1), ('b', 1)], 'a b'), ([('a', 0)], 'a'), ([], ''), ([('x', 1), ('y', 0)], 'xy')]
     for spec, want in cases:
         toks = mk_tokens([{'loc': l, 'has_space': h, 'at_bol': 0} for l, h in spec], eof, ident)
-        ctx, r = _run1ctx(it, 'join_tokens', [toks[0], 0])
+        ctx, r = _run1ctx(it, 'join_tokens', [toks[0], 0] + [0] * (len(u.params('join_tokens')) - 2))
         try:
             got = _cstr(r)
         except _Opaque as e:
@@ -2492,17 +2769,13 @@ def r_stringize(P, u, rep):
         over = [(len(arr.elems), size) for arr, size in getattr(ctx, 'bufs', []) if len(arr.elems) > size]
         A.ob('R09.9', '%s:join_tokens:buffer-size' % U, not over, 'join_tokens writes past its buffer (%s)' % (over,), ln('join_tokens'))
     toks = mk_tokens([{'loc': 'a'}, {'loc': 'b', 'has_space': 1}, {'loc': 'c', 'has_space': 1}], eof, ident)
-    ctx, r = _run1ctx(it, 'join_tokens', [toks[0], toks[2]])
+    ctx, r = _run1ctx(it, 'join_tokens', [toks[0], toks[2]] + [0] * (len(u.params('join_tokens')) - 2))
     try:
         A.ob('R09.9', '%s:join_tokens:stops-at-end' % U, _cstr(r) == 'a b', 'join_tokens(tok, end) does not stop before `end` (got %r)' % _cstr(r), ln('join_tokens'))
     except _Opaque as e:
         rep.undecided('R09.9', '%s:join_tokens:not-concrete' % U, 'the interpreter cannot follow join_tokens to a concrete string (%s)' % e, where=ln('join_tokens'))
-    # wiring of stringize / new_str_token
-    it2 = PInterp(P, u, {'opaque': ['join_tokens', 'new_str_token']})
-    for ctx, out in it2.explore('stringize', lambda ctx: [Obj('Token', lazy=True, label='hash'), Obj('Token', lazy=True, label='arg')]):
-        d = Desc(it2, ctx).of(out[1]) if out[0] == 'ret' else ('leaf', 'noreturn')
-        A.ob('R09.9', '%s:stringize:joins-argument-then-quotes' % U, show(d) == 'new_str_token(join_tokens(arg, 0), hash)',
-             'stringize returns %s instead of new_str_token(join_tokens(arg, NULL), hash)' % show(d), ln('stringize'))
+    # stringize as a whole, run on concrete operands: the text it hands to tokenize()
+    _stringize_text(P, u, rep, A, ln)
     it3 = PInterp(P, u, {'opaque': ['quote_string', 'new_file', 'tokenize']})
     for ctx, out in it3.explore('new_str_token', lambda ctx: [Sym('str', 'char *'), Obj('Token', lazy=True, label='tmpl')]):
         d = Desc(it3, ctx).of(out[1]) if out[0] == 'ret' else ('leaf', 'noreturn')
